@@ -465,6 +465,42 @@ def _crypt(case, world, out):
             out.check(wallet.encryption_password == pw, "password-not-kept-after-unlock", tag_op)
             if any_secret:
                 did["right"] += 1
+        elif name == "mixed_file":
+            # a wallet file whose account carries its seed under one password and its private key under another (a merge gone
+            # wrong, a hand-edited or tampered file): no password opens it, and every refused attempt leaves it as it was
+            idx = [i for i, sp in enumerate(specs) if sp["kind"] == "seed"]
+            if st_["locked"] or not idx or passwords[0] == passwords[1]:
+                out.label("skip:mixed_file")
+                continue
+            da = wallet.to_dict(encrypt_password=passwords[0])
+            db_ = wallet.to_dict(encrypt_password=passwords[1])
+            i = idx[step % len(idx)]
+            da["accounts"][i]["private_key"] = db_["accounts"][i]["private_key"]
+            path2 = os.path.join(world.dir, "mixed-%d.json" % step)
+            with open(path2, "w") as f:
+                json.dump(da, f)
+            w2 = Wallet.from_storage(WalletStorage(path2), world)
+
+            def snap2():
+                return {"dict": json.dumps(w2.to_dict(), sort_keys=True),
+                        "accounts": [(a.encrypted, a.seed, a.private_key_string, a.private_key is None) for a in w2.accounts],
+                        "pw": w2.encryption_password, "locked": w2.is_locked}
+            for which, pw in (("seed-password", passwords[0]), ("key-password", passwords[1])):
+                before = snap2()
+                try:
+                    r = aio.run(w2.unlock(pw))
+                except Exception as e:  # noqa: refusing by raising is allowed
+                    r = "raised %s" % type(e).__name__
+                after = snap2()
+                if r is True or not after["locked"]:
+                    out.violate("mixed-password-file-unlocked:" + which, "unlock -> %r" % (r,))
+                elif after != before:
+                    changed = [k for k, (x, y) in enumerate(zip(before["accounts"], after["accounts"])) if x != y]
+                    out.violate("refused-password-changes-state:mixed-password-file:" + which,
+                                "unlock -> %r; accounts %s changed (seed now plaintext: %s)" % (
+                                    r, changed, [after["accounts"][k][1] == sec0[k]["seed"] for k in changed]))
+            os.remove(path2)
+            out.label("mixed_password_file")
         elif name == "add_account_locked":
             # account_create on a locked wallet (the daemon does not look at the lock state): the wallet is partly locked then
             if not (st_["locked"] and st_["pref"] and st_["mem_pw"] is not None and any_secret and len(wallet.accounts) < 5):
@@ -682,7 +718,7 @@ OPS = [["save"], ["reload"], ["reload"], ["unlock_right"], ["unlock_wrong", 0], 
        ["unlock_race", 0, 0], ["unlock_race", 1, 1], ["unlock_race", 2, 0], ["unlock_race", 3, 2],
        # ... or another task saves the wallet at that moment (some accounts already open, others still locked)
        ["unlock_race", 0, 0, "save"], ["unlock_race", 1, 0, "save"], ["unlock_race", 2, 0, "save"],
-       ["add_account_locked"], ["add_account_locked"]]
+       ["add_account_locked"], ["add_account_locked"], ["mixed_file"]]
 
 
 @st.composite
@@ -1260,7 +1296,7 @@ PARTS = [
          essential=WRONG_KINDS + ("acct_seed", "acct_xprv", "acct_xpub", "gen_single", "gen_hd", "with_channel_keys",
                                   "pw_unicode", "pw_astral", "pw_combining", "pw_long", "reload_locked",
                                   "disk_checked_encrypted", "unlocked_with_right_password", "refused_wrong_password",
-                                  "seed_wordlist", "race_wrong_unlock_ran", "race_partly_unlocked", "race_save_partly_unlocked", "account_created_while_locked")),
+                                  "seed_wordlist", "race_wrong_unlock_ran", "race_partly_unlocked", "race_save_partly_unlocked", "account_created_while_locked", "mixed_password_file")),
     Part("pack", pack_case, run_pack, 60, 800, quick_shards=2, thorough_shards=16,
          essential=("acct_seed", "acct_xprv", "acct_xpub", "pw_unicode", "unpack_wrong:InvalidPasswordError")),
     Part("crash", crash_case, run_crash, 150, 2500, quick_shards=2, thorough_shards=16,
